@@ -213,6 +213,7 @@ def _close(a, b, tol):
 OPS = {0: 'greater', 1: 'greater_equal', 2: 'larger'}
 
 _PMM = {}
+_LAYOUT_NAME = {'nsig': 'nsig'}
 
 
 def _pmm(layout):
@@ -222,10 +223,11 @@ def _pmm(layout):
         from harness import llh_fixtures as fx
         srcs = fx.make_sources(1)
         pmm = ParameterModelMapper(models=srcs)
-        order = {'ns0': ['ns'], 'ns1': ['gamma', 'ns'], 'ns2': ['gamma', 'Ecut', 'ns', 'beta']}[layout]
+        # 'nsig': the signal-strength parameter is called 'nsig' (TestStatistic(ns_param_name='nsig')), a decoy 'ns' comes first
+        order = {'ns0': ['ns'], 'ns1': ['gamma', 'ns'], 'ns2': ['gamma', 'Ecut', 'ns', 'beta'], 'nsig': ['ns', 'gamma', 'nsig']}[layout]
         for nm in order:
             pmm.map_param(Parameter(nm, 1.0, -1e9, 1e9), models=srcs)
-        _PMM[layout] = (pmm, order.index('ns'), len(order))
+        _PMM[layout] = (pmm, order.index(_LAYOUT_NAME.get(layout, 'ns')), len(order))
     return _PMM[layout]
 
 
@@ -275,9 +277,12 @@ def _call(fn):
 # ------------------------------------------------------------------------------------------
 # test statistic: implementation adapters
 
-def _ts_new(cls):
+def _ts_new(cls, layout=None):
     from skyllh.core.test_statistic import WilksTestStatistic, LLHRatioZeroNsTaylorWilksTestStatistic
-    return {'wilks': WilksTestStatistic, 'taylor': LLHRatioZeroNsTaylorWilksTestStatistic}[cls]()
+    c = {'wilks': WilksTestStatistic, 'taylor': LLHRatioZeroNsTaylorWilksTestStatistic}[cls]
+    if layout in _LAYOUT_NAME:
+        return c(ns_param_name=_LAYOUT_NAME[layout])
+    return c()
 
 
 def _fp_of(case):
@@ -290,7 +295,7 @@ def _fp_of(case):
 def impl_ts(case, tsobj=None):
     pmm, idx, fp = _fp_of(case)
     if tsobj is None:
-        tsobj = _ts_new('wilks')
+        tsobj = _ts_new('wilks', case['layout'])
     return _call(lambda: _as_float(tsobj(pmm=pmm, log_lambda=np.float64(_f(case['ll'])), fitparam_values=fp)))
 
 
@@ -303,7 +308,7 @@ def impl_tst(case, tsobj=None):
     if case.get('pass_grads', True):
         kw['grads'] = grads
     if tsobj is None:
-        tsobj = _ts_new('taylor')
+        tsobj = _ts_new('taylor', case['layout'])
     v, err = _call(lambda: _as_float(tsobj(**kw)))
     for ev in stub.evals:
         if ev != [float(x) for x in fp]:
@@ -758,7 +763,8 @@ class _GammaRecorder(object):
         self.calls = []
 
     def __call__(self, ts_vals, ts_threshold, eta=3.0, n_max=500000):
-        self.calls.append((float(eta), int(n_max), float(ts_threshold), int(len(ts_vals))))
+        self.calls.append((float(eta), int(n_max), float(ts_threshold), int(len(ts_vals)),
+                           [float(v) for v in np.asarray(ts_vals).ravel()[:64]]))
         return (0.5, 0.0)
 
 
@@ -772,6 +778,8 @@ def impl_mix(case):
         kw['eta'] = _f(case['eta'])
     if case.get('op') is not None:
         kw['comp_operator'] = OPS[case['op']]
+    if case.get('n_max') is not None:
+        kw['n_max'] = int(case['n_max'])
     rec = _GammaRecorder()
     orig = ua.calculate_pval_from_gammafit_to_trials
     ua.calculate_pval_from_gammafit_to_trials = rec
@@ -779,7 +787,9 @@ def impl_mix(case):
         with np.errstate(all='ignore'):
             r = ua.calculate_pval_from_trials_mixed(tsv, _f(case['thr']), **kw)
         if rec.calls:
-            return ('G', rec.calls[0][0])
+            # everything handed to the gamma fit: eta, n_max, threshold, sample (length + leading values), and what comes back
+            c = rec.calls[0]
+            return ('G', c[0], c[1], c[2], c[3], c[4] == [float(v) for v in tsv[:64]], (float(r[0]), float(r[1])) == (0.5, 0.0), len(rec.calls))
         return ('T', 'ok', float(r[0]), float(r[1]))
     except ZeroDivisionError:
         return ('T', 'err', 'Z')
@@ -804,8 +814,59 @@ def o_mixed(ctx, case):
             return 'mixed p-value below the switch (thr=%r < %r, %s) gives %r, calculate_pval_from_trials gives %r' % (thr, sw, OPS[op], r, d)
     else:
         eta = sw if case.get('eta') is None else _f(case['eta'])
-        if r[0] != 'G' or r[1] != eta:
-            return 'mixed p-value at thr=%r >= switch %r: expected the gamma fit with eta=%r, got %r' % (thr, sw, eta, r)
+        want = _mix_gamma_expect(case, eta)
+        if r != want:
+            return ('mixed p-value at thr=%r >= switch %r: expected one call of the gamma fit with (eta, n_max, threshold, number of '
+                    'trials, same sample, result passed through) = %r, got %r' % (thr, sw, want[1:], r))
+    return None
+
+
+def _mix_gamma_expect(case, eta):
+    n_max = 500000 if case.get('n_max') is None else int(case['n_max'])
+    return ('G', float(eta), n_max, _f(case['thr']), len(case['tsv']), True, True, 1)
+
+
+def _chi2_sample(seed, n):
+    rs = np.random.RandomState(int(seed))
+    return np.where(rs.uniform(size=n) < 0.5, 0.0, rs.chisquare(1, size=n))
+
+
+def o_gamma_real(ctx, case):
+    """the mixed helper with the REAL gamma fit (iminuit) on a chi2-like sample generated from case['seed']: every value
+    lies in [0,1]; ValueError exactly for thresholds in [switch, eta) (documented for the gamma fit); and the p-value is
+    non-increasing in the threshold — also across the switch"""
+    import skyllh.core.utils.analysis as ua
+    if not ua.IMINUIT_LOADED:
+        return None
+    ts = _chi2_sample(case['seed'], case['n'])
+    sw = 3.0 if case.get('switch') is None else _f(case['switch'])
+    eta = sw if case.get('eta') is None else _f(case['eta'])
+    kw = {}
+    if case.get('switch') is not None:
+        kw['switch_at_ts'] = sw
+    if case.get('eta') is not None:
+        kw['eta'] = eta
+    prev = None
+    for thr in sorted(_fl(case['thrs'])):
+        try:
+            with warnings.catch_warnings():
+                warnings.simplefilter('ignore')
+                with np.errstate(all='ignore'):
+                    p = float(ua.calculate_pval_from_trials_mixed(ts, thr, **kw)[0])
+        except ValueError:
+            if sw <= thr < eta:
+                continue
+            return 'calculate_pval_from_trials_mixed(thr=%r, switch=%r, eta=%r) raised ValueError outside [switch, eta)' % (thr, sw, eta)
+        except Exception as e:  # noqa
+            return 'calculate_pval_from_trials_mixed(thr=%r) raised %s: %s' % (thr, type(e).__name__, e)
+        if sw <= thr < eta:
+            return 'calculate_pval_from_trials_mixed(thr=%r) returned %r for a threshold below the truncation point eta=%r of the gamma fit' % (thr, p, eta)
+        if not (0.0 <= p <= 1.0):
+            return 'mixed p-value %r outside [0,1] at thr=%r (switch %r, eta %r)' % (p, thr, sw, eta)
+        if prev is not None and p > prev[1] * (1 + 1e-9):
+            return ('mixed p-value increases with the threshold: p(%r) = %r < p(%r) = %r (switch_at_ts=%r, eta=%r%s, %d chi2-like trials, seed %d)' % (
+                prev[0], prev[1], thr, p, sw, eta, ' given explicitly' if case.get('eta') is not None else ' (default)', case['n'], case['seed']))
+        prev = (thr, p)
     return None
 
 
@@ -947,7 +1008,7 @@ def _mixed_with_recorder(tsv, thr, kw):
     ua.calculate_pval_from_gammafit_to_trials = rec
     try:
         r = ua.calculate_pval_from_trials_mixed(tsv, thr, **kw)
-        return (r[0], r[1], float(len(rec.calls)), rec.calls[0][0] if rec.calls else -1.0)
+        return (r[0], r[1], float(len(rec.calls)), rec.calls[0][0] if rec.calls else -1.0, float(rec.calls[0][1]) if rec.calls else -1.0)
     finally:
         ua.calculate_pval_from_gammafit_to_trials = orig
 
@@ -983,7 +1044,7 @@ def _purity_setup(case):
         pmm, idx, fp0 = _fp_of(case)
         g0 = [0.125 * (i + 1) for i in range(len(fp0))]
         g0[idx] = _f(case.get('a', 0.0))
-        tsobj = _ts_new('wilks' if h == 'ts' else 'taylor')
+        tsobj = _ts_new('wilks' if h == 'ts' else 'taylor', case['layout'])
 
         def make(form):
             return {'fp': _mk(fp0.tolist(), form), 'grads': _mk(g0, 'f64' if form == 'int' else form)}
@@ -1161,7 +1222,8 @@ def corr_compare(case, model):
         r = impl_mix(case)
         t = model.split(' ')
         if t[0] == 'G':
-            return None if (r[0] == 'G' and _same(r[1], b2f(t[1]))) else 'mix: implementation %r, model gamma fit eta=%r' % (r, b2f(t[1]))
+            want = _mix_gamma_expect(case, b2f(t[1]))
+            return None if r == want else 'mix: implementation %r, model gamma fit %r' % (r, want)
         if t[1] == 'err':
             return None if r == ('T', 'err', t[2]) else 'mix: implementation %r, model %s' % (r, model)
         p, s = b2f(t[4]), b2f(t[5])
@@ -1331,7 +1393,7 @@ def _corr_hist(ctx, hcases):
     return res
 
 
-ORACLES = {'llh_history': o_llh_history, 'purity': o_purity, 'ts_history': o_ts_history, 'ts': o_ts, 'ts_taylor': o_ts_taylor, 'ts_real': o_ts_real, 'ana_chain': o_ana_chain,
+ORACLES = {'gamma_real': o_gamma_real, 'llh_history': o_llh_history, 'purity': o_purity, 'ts_history': o_ts_history, 'ts': o_ts, 'ts_taylor': o_ts_taylor, 'ts_real': o_ts_real, 'ana_chain': o_ana_chain,
            'pval': o_pval, 'mixed': o_mixed, 'poly': o_poly, 'corr': o_corr}
 
 # property oracle looking at the same behaviour as a correspondence kind, and how to turn the case into its input
@@ -1345,6 +1407,12 @@ _ORACLE_OF_KIND = {
     'mix': [('mixed', lambda c: c), ('pval', lambda c: {'tsv': c['tsv'], 'thrs': [c['thr']]})],
     'poly': [('poly', lambda c: c)],
 }
+
+
+def _signature(name, oc, res):
+    if name == 'gamma_real' and 'increases with the threshold' in res and oc.get('eta') is not None:
+        return 'C12/gamma_real/not-antitone-explicit-eta-below-switch'
+    return 'C12/%s/%s' % (name, _classify(res))
 
 
 def _classify(res):
@@ -1371,7 +1439,7 @@ def _classify(res):
 # generators
 
 def gen_ns(rng):
-    return rng.choice([0.0, 0.0, -0.0, 5e-324, -5e-324, 1.0, -1.0, 2.5, -1.5, 1e-9, -1e-9, 1e6, -1e6,
+    return rng.choice([0.0, 0.0, -0.0, 5e-324, -5e-324, 1.0, -1.0, 2.5, -1.5, 1e-9, -1e-9, 1e6, -1e6, float('inf'), float('-inf'),
                        rng.uniform(-50, 50), rng.uniform(0, 5), -rng.uniform(0, 5)])
 
 
@@ -1412,7 +1480,7 @@ def gen_curve(rng):
     xs = sorted(lo + span * rng.random() for _ in range(n))
     if rng.random() < 0.5:
         xs = [lo + span * i / (n - 1) for i in range(n)]
-    shape = rng.choice(['lin', 'concave', 'convex', 'sigmoid'])
+    shape = rng.choice(['lin', 'concave', 'convex', 'sigmoid', 'saturating'])
     sl = rng.uniform(0.3, 0.9)
     u = [(x - lo) / span for x in xs]
     if shape == 'lin':
@@ -1421,6 +1489,9 @@ def gen_curve(rng):
         ys = [0.05 + sl * (2 * t - t * t) for t in u]
     elif shape == 'convex':
         ys = [0.05 + sl * t * t for t in u]
+    elif shape == 'saturating':
+        plateau = rng.uniform(0.3, 0.8)          # p_thr above the plateau: the fitted parabola often never reaches it
+        ys = [0.05 + plateau * (1 - math.exp(-4 * t)) for t in u]
     else:
         ys = [0.05 + 0.9 / (1 + math.exp(-6 * (t - 0.5))) for t in u]
     if rng.random() < 0.15:
@@ -1575,23 +1646,27 @@ def run(ctx):
                          'np.polyfit (LAPACK) is recorded, only the inversion is modelled',
                          'ast extraction of signatures and call-site keywords (harness/extract.py)',
                          'IEEE rounding is outside the theorems (statements over ℝ / linear orders)']
-    ctx.assumptions += ['fit results and TS values are not NaN',
-                        'the zero-ns Taylor statistic is called right after evaluate() at the same fit parameters '
-                        '(calculate_ns_grad2 uses the per-event gradients cached by evaluate)',
-                        'gamma-fit p-values (iminuit) are outside the property: only the routing to them is checked']
+    ctx.assumptions += ['fit results and TS values are not NaN (±inf is generated; a NaN ns propagates to a NaN TS in the code and is outside the model)',
+                        'the gamma fit itself (iminuit, scipy.stats.gamma) is not modelled: its survival function is abstract in the theorems; the real fit is '
+                        'run by the gamma_real oracle', 'a returned signal strength may lie outside the sampled ns range (extrapolation of the fitted '
+                        'curve): the property asks for a point of the fitted curve, not for one inside the data']
     cases, ocases = [], []
 
     # ---- test statistic on pmm layouts
     for _ in range(ctx.n(150, 10000)):
-        layout = rng.choice(['ns0', 'ns1', 'ns2'])
+        layout = rng.choice(['ns0', 'ns1', 'ns2', 'nsig'])
         ns, ll = gen_ns(rng), gen_ll(rng)
+        ctx.count('ts:layout=' + layout)
         ctx.count('ts:ns' + ('<0' if ns < 0 else '=0' if ns == 0 else '>0'))
-        c = {'kind': 'ts', 'layout': layout, 'ns': ns, 'll': ll}
+        others = [rng.choice([2.5, -2.5, 0.0, 7.0, -3.0]) for _ in range(4)]
+        c = {'kind': 'ts', 'layout': layout, 'ns': ns, 'll': ll, 'others': others}
         cases.append(c)
         ocases.append(('ts', c))
         a = rng.choice([0.0, 0.0, -0.3, 0.7, rng.gauss(0, 2), 1e-8])
         b = rng.choice([-0.05, -1.0, -rng.uniform(1e-6, 10), -1e-12, 0.25, 0.0, -0.0])
-        c = {'kind': 'tst', 'layout': layout, 'ns': ns, 'll': ll, 'a': a, 'b': b}
+        c = {'kind': 'tst', 'layout': layout, 'ns': ns, 'll': ll, 'a': a, 'b': b, 'others': others,
+             'pass_grads': rng.random() < 0.7}
+        ctx.count('tst:b%s' % ('=0,a=0' if (b == 0 and a == 0) else '=0,a!=0' if b == 0 else '<0' if b < 0 else '>0'))
         cases.append(c)
         ocases.append(('ts_taylor', c))
     # ---- histories on one test-statistic instance
@@ -1624,6 +1699,8 @@ def run(ctx):
         vals = gen_sample(rng)
         thrs = gen_thresholds(rng, vals, 6)
         ctx.count('pv:n=%s' % (len(vals) if len(vals) < 4 else '4+'))
+        ctx.count('pv:sample-%s' % ('empty' if not vals else 'single-element' if len(vals) == 1 else
+                                    'with-duplicates' if len(set(vals)) < len(vals) else 'all-distinct'))
         ocases.append(('pval', {'tsv': vals, 'thrs': thrs}))
         for thr in thrs[:3]:
             op = rng.choice([0, 1, 0, 1, 2, None])
@@ -1631,10 +1708,19 @@ def run(ctx):
             ctx.count('pv:thr-%s' % ('tie' if thr in vals else 'other'))
         c = {'kind': 'mix', 'tsv': vals, 'thr': rng.choice(thrs + [3.0, float(np.nextafter(3.0, 0))]),
              'switch': rng.choice([None, None, 3.0, 1.0, rng.choice(thrs)]), 'eta': rng.choice([None, None, 2.0, 3.5]),
-             'op': rng.choice([None, 0, 1, 2])}
+             'op': rng.choice([None, 0, 1, 2]), 'n_max': rng.choice([None, None, 10, 1000000])}
         if not (c['thr'] != c['thr']):
             cases.append(c)
             ocases.append(('mixed', c))
+    # ---- the real gamma fit behind the mixed helper (default eta: must be monotone across the switch)
+    for _ in range(ctx.n(3, 40)):
+        sw = rng.choice([None, 3.0, 2.0, 4.0])
+        s0 = 3.0 if sw is None else sw
+        eta = rng.choice([None, None, None, s0 + 0.5, s0 - 1.0])
+        thrs = [0.5, s0 - 0.5, float(np.nextafter(s0, 0)), s0, s0 + 0.25, s0 + 0.5, s0 + 1.0, 6.0, 9.0]
+        c = {'seed': rng.randrange(10 ** 6), 'n': rng.choice([2000, 5000]), 'switch': sw, 'eta': eta, 'thrs': thrs}
+        ctx.count('gamma_real:eta-%s' % ('default' if eta is None else ('above-switch' if eta > s0 else 'below-switch')))
+        ocases.append(('gamma_real', c))
     # ---- polynomial inversion
     for _ in range(ctx.n(150, 8000)):
         xs, ys, ws = gen_curve(rng)
@@ -1646,6 +1732,16 @@ def run(ctx):
         cases.append(c)
         ocases.append(('poly', c))
         ctx.count('poly:deg=%d' % deg)
+        if deg == 2:
+            try:
+                a2, b2, c2 = _polyfit(xs, ys, 2, ws)
+                ctx.count('poly:deg2-' + ('line(opens-upwards)' if a2 > 0 else 'line(never-reaches-p_thr)'
+                                          if b2 * b2 - 4 * a2 * (c2 - pthr) < 0 else 'parabola'))
+            except Exception:  # noqa
+                ctx.count('poly:deg2-polyfit-rejects')
+        r0 = impl_poly(c)
+        inside = r0[0] == 'ok' and min(xs) <= r0[1] <= max(xs)
+        ctx.count('poly:root-%s-the-sampled-range' % ('inside' if inside else 'outside'))
     # ---- keyword binding
     sig = extract_signatures()
     for _where, npos, kws in sig['grad2_calls']:
@@ -1693,7 +1789,7 @@ def run(ctx):
             if name == 'ts_history':
                 oc = _shrink_hist(ctx, oc, o_ts_history)
                 res = o_ts_history(ctx, oc) or res
-            ctx.violation(name, oc, res, signature='C12/%s/%s' % (name, _classify(res)))
+            ctx.violation(name, oc, res, signature=_signature(name, oc, res))
     # ---- disagreements: look for a failing input, else report the relation that no longer holds
     seen = set()
     for c, m, d in suspicious:
